@@ -17,12 +17,14 @@ from pbv import core, impl, tables, units as UA
 STD_CD = [0.2, 0.4, 0.3, 0.25, 0.22, 0.21, 0.2]
 POINT_LISTS = ("{ <<<<30, 2>>>>, <<<<20, 0>>, <<30, 4>>>>, <<<<30, 4>>, <<20, 0>>>>, <<<<50, 3>>, <<20, 1>>, <<30, 7>>>>, "
                "<<<<30, 7>>, <<50, 3>>, <<20, 1>>>>, <<<<20, 2>>, <<50, 6>>>>, <<<<25, 8>>, <<45, 5>>>>, "
-               "<<<<20, 2>>, <<50, 4>>, <<30, 8>>>>, <<<<30, 0>>, <<20, 4>>, <<50, 6>>>> }")   # the last two: end points ON table nodes
+               "<<<<20, 2>>, <<50, 4>>, <<30, 8>>>>, <<<<30, 0>>, <<20, 4>>, <<50, 6>>>>, "   # these two: end points ON table nodes
+               "<<<<30, 1>>, <<20, 4>>, <<30, 7>>>>, <<<<30, 7>>, <<30, 1>>, <<45, 3>>>> }")    # a BC curve that dips (rises) and RETURNS to the same value
 # a COARSE table (nodes 2 Mach apart) with 4 and 5 BC points, two or three of them strictly between the same pair of table rows,
 # in ascending, descending and scrambled order
 POINT_LISTS_COARSE = ("{ <<<<20, 1>>, <<30, 5>>, <<50, 6>>, <<25, 11>>>>, <<<<25, 11>>, <<50, 6>>, <<30, 5>>, <<20, 1>>>>, "
                       "<<<<30, 1>>, <<20, 2>>, <<50, 3>>, <<40, 9>>, <<25, 12>>>>, <<<<40, 9>>, <<30, 1>>, <<25, 12>>, <<50, 3>>, <<20, 2>>>>, "
-                      "<<<<45, 5>>, <<20, 7>>, <<35, 10>>, <<50, 11>>>>, <<<<20, 0>>, <<50, 9>>, <<30, 10>>, <<40, 11>>, <<25, 12>>>> }")
+                      "<<<<45, 5>>, <<20, 7>>, <<35, 10>>, <<50, 11>>>>, <<<<20, 0>>, <<50, 9>>, <<30, 10>>, <<40, 11>>, <<25, 12>>>>, "
+                      "<<<<40, 1>>, <<25, 5>>, <<30, 6>>, <<40, 11>>>> }")
 SOUND = None
 
 
@@ -213,7 +215,7 @@ def run(chk: core.Check, replay_path=None, **_):
     chk.sample({"history": behs[len(behs) // 2]})
     chk.require_strata(["several_points_between_two_table_rows", "preferred_units_changed_between_builds", "build_from_standard", "build_from_other-model", "table_as_dicts", "table_as_datapoints", "single_point",
                         "single_equals_plain", "shipped_heap"])
-    chk.rule.append("every build history of %d builds over 9 point lists (1-3 points, several orders, on and between nodes) and, on a coarse table, 6 lists of 4-5 points with several points between two table rows x source "
+    chk.rule.append("every build history of %d builds over 11 point lists (1-3 points, incl. curves returning to their first BC, several orders, on and between nodes) and, on a coarse table, 6 lists of 4-5 points with several points between two table rows x source "
                     "(standard table as dicts / caller-owned data points / another model's table by reference), points by Mach or by "
                     "velocity in rotating units, with and without weight+diameter; non-trivial = a build with >= 2 BC points"
                     % (4 if thorough else 3))
